@@ -32,6 +32,9 @@ RepLemma     == \A x \in Vec(N1), n \in 0..3 : Check("int", "Rep", x, <<>>, <<>>
 SeqLemma     == \A f, g \in -6..6, b \in 1..4 : Check("int", "Seq", <<>>, <<>>, <<>>, <<f, g, b>>)
 BinaryLemma  == \A t \in Types, op \in Binary, x, y \in Vec(N2) : Check(t, op, x, y, <<>>, <<>>)
 TernaryLemma == \A op \in Ternary, x, y, z \in Vec(N3) : Check("int", op, x, y, z, <<>>)
+WeightedLemma == /\ \A x, a \in Vec(N2), nz, pre \in 0..1 : Check("double", "MeanW", x, a, <<>>, <<nz, pre>>)
+                 /\ \A x, a \in Vec(N2), u, nz, pre \in 0..1 : Check("double", "VarW", x, a, <<>>, <<u, nz, pre>>)
+                 /\ \A x, y, a \in Vec(N3), u, nz, pre \in 0..1 : Check("double", "CovW", x, y, a, <<u, nz, pre>>)
 NaryLemma    == \A op \in Nary, x, y, z \in Vec(N3), n \in 0..3 : Check("int", op, x, y, z, <<n>>)
 
 \* the definitions themselves
@@ -63,8 +66,17 @@ RefuseLemma ==
   /\ ~J("int", "Union", <<1, 1>>, <<>>, <<>>, <<>>, "ok", "", <<1, 1>>, <<1, 1>>, <<>>, <<>>)
   /\ ~J("double", "Fdr", <<3, 1, 2>>, <<>>, <<>>, <<>>, "ok", "", <<22680, 3780, 5040>>, <<3, 1, 2>>, <<>>, <<>>)
   /\ J("double", "Fdr", <<3, 1, 2>>, <<>>, <<>>, <<>>, "ok", "", <<3 * 2520, 2520 * 3, 2520 * 3>>, <<3, 1, 2>>, <<>>, <<>>)
-  /\ ~JLog("LogSum2", <<0, 0>>, <<>>, 5, "ok", "", [nan |-> TRUE, fin |-> FALSE, ri |-> -1, mi |-> 0, zero |-> FALSE, c1 |-> FALSE, c2 |-> FALSE, wm |-> 0, w |-> 0, eo |-> FALSE])
-  /\ JLog("LogSum2", <<0, 0>>, <<>>, 5, "ok", "", [nan |-> FALSE, fin |-> FALSE, ri |-> 0, mi |-> 0, zero |-> FALSE, c1 |-> TRUE, c2 |-> TRUE, wm |-> 0, w |-> 0, eo |-> FALSE])
+  \* weighted variance of x = (0, 2) with weights (1, 1)/2: biased 1, unbiased 2; a flag mix-up is refused
+  /\ J("double", "VarW", <<0, 2>>, <<1, 1>>, <<>>, <<0, 1, 0>>, "ok", "", <<4096, 0, 0, 1, 0>>, <<0, 2>>, <<1, 1>>, <<>>)
+  /\ ~J("double", "VarW", <<0, 2>>, <<1, 1>>, <<>>, <<0, 1, 0>>, "ok", "", <<8192, 0, 0, 1, 0>>, <<0, 2>>, <<1, 1>>, <<>>)
+  /\ J("double", "VarW", <<0, 2>>, <<1, 1>>, <<>>, <<1, 0, 1>>, "ok", "", <<8192, 0, 0, 1, 0>>, <<0, 2>>, <<1, 1>>, <<>>)
+  /\ ~J("double", "VarW", <<0, 2>>, <<1, 1>>, <<>>, <<1, 0, 1>>, "ok", "", <<4096, 0, 0, 0, 0>>, <<0, 2>>, <<1, 1>>, <<>>)
+  /\ ~J("double", "VarW", <<0, 2>>, <<1, 1>>, <<>>, <<0, 1, 0>>, "ok", "", <<-4096, 0, 1, 0, 1>>, <<0, 2>>, <<1, 1>>, <<>>)
+  \* log-sum-exp of two tied finite entries that answers max (ties dropped) is refused through c3
+  /\ ~JLog("LogSumExp", <<2, 2>>, <<>>, 5, "ok", "", [nan |-> FALSE, fin |-> TRUE, ri |-> 2, mi |-> 2, zero |-> FALSE, c1 |-> TRUE, c2 |-> TRUE,
+                                                   wm |-> 0, w |-> 0, eo |-> FALSE, k |-> 2, c3 |-> FALSE, near |-> TRUE, c4 |-> FALSE, sha |-> TRUE, sh |-> TRUE])
+  /\ ~JLog("LogSum2", <<0, 0>>, <<>>, 5, "ok", "", [nan |-> TRUE, fin |-> FALSE, ri |-> -1, mi |-> 0, zero |-> FALSE, c1 |-> FALSE, c2 |-> FALSE, wm |-> 0, w |-> 0, eo |-> FALSE, k |-> 2, c3 |-> FALSE, near |-> FALSE, c4 |-> FALSE, sha |-> FALSE, sh |-> FALSE])
+  /\ JLog("LogSum2", <<0, 0>>, <<>>, 5, "ok", "", [nan |-> FALSE, fin |-> FALSE, ri |-> 0, mi |-> 0, zero |-> FALSE, c1 |-> TRUE, c2 |-> TRUE, wm |-> 0, w |-> 0, eo |-> FALSE, k |-> 2, c3 |-> FALSE, near |-> FALSE, c4 |-> FALSE, sha |-> FALSE, sh |-> FALSE])
 
 ASSUME LET v == UnaryLemma IN PrintT(<<"Lemma", "Unary", v>>) /\ v
 ASSUME LET v == ScalarLemma IN PrintT(<<"Lemma", "Scalar", v>>) /\ v
@@ -72,6 +84,7 @@ ASSUME LET v == RepLemma /\ SeqLemma IN PrintT(<<"Lemma", "RepSeq", v>>) /\ v
 ASSUME LET v == BinaryLemma IN PrintT(<<"Lemma", "Binary", v>>) /\ v
 ASSUME LET v == TernaryLemma IN PrintT(<<"Lemma", "Ternary", v>>) /\ v
 ASSUME LET v == NaryLemma IN PrintT(<<"Lemma", "Nary", v>>) /\ v
+ASSUME LET v == WeightedLemma IN PrintT(<<"Lemma", "Weighted", v>>) /\ v
 ASSUME LET v == DefLemma /\ TruncLemma IN PrintT(<<"Lemma", "Defs", v>>) /\ v
 ASSUME LET v == RefuseLemma IN PrintT(<<"Lemma", "Refuse", v>>) /\ v
 
